@@ -141,8 +141,10 @@ def gen_cases(rng, tier):
 
 
 def strip(tr, drop=('RQ@', 'RA@')):
-    # the twin's key is another custom action without effect on the keyboard: its message is not compared
-    return [l for l in (tr or []) if not l.startswith(drop) and not (l.startswith('M@') and ' other ' in l)]
+    # the twin's key is another custom action without effect on the keyboard: its message is not compared; a second release of a
+    # key that is already up in the same millisecond (one release per state holding the key) is the same behaviour
+    from checks.c07 import dedup_releases
+    return [dedup_releases(l) for l in (tr or []) if not l.startswith(drop) and not (l.startswith('M@') and ' other ' in l)]
 
 
 def after_marker(tr):
